@@ -1012,8 +1012,49 @@ def build_fixed(kind: str, style: str, classes_spec: list, sites_spec: list, eve
                 {"kind": kind, "style": style, "unique": None, "classes": classes, "stream": "fixed"})
 
 
+def fixed_multi() -> Hist:
+    """ONE holder with two discriminated fields over two hierarchies: own key, own tagger function, own registry per field;
+    the same tag value means different classes at the two sites; late subclass; first failing field decides"""
+    style, kind = "str", "field"
+    mk = lambda cid, parents, tt: {"id": cid, "parents": parents, "own_tags": {}, "ttags": tt, "ttag_bare": False, "own_js": {},
+                                   "ttag_js": None, "kerr": False, "own_req": [], "decl": "plain", "plain": False, "config": None}
+    cls_ = [mk(0, [], {0: [], 1: []}), mk(1, [], {0: [], 1: []}), mk(2, [0], {0: [5], 1: [6]}), mk(3, [1], {0: [6], 1: [5]}),
+            mk(4, [1], {0: [5], 1: [7]})]
+    sites = [{"wiring": "holder", "bases": [0], "sub": True, "sup": False, "field": True, "tagger": True, "config": False, "fid": 0,
+              "tgid": 0, "shape": "plain", "name": "H0", "vfield": "v0", "dialects": False},
+             {"wiring": "holder", "bases": [1], "sub": True, "sup": False, "field": True, "tagger": True, "config": False, "fid": 1,
+              "tgid": 1, "shape": "a_list", "name": "H0", "vfield": "v1", "dialects": False}]
+    ops, script, op_of_step = [], [{"op": "exec", "src": PREAMBLE}], [None]
+
+    def define(c):
+        ops.append(("define", list(c["parents"]), {}, {g: list(t) for g, t in c["ttags"].items()}, [], False))
+        script.append({"op": "exec", "src": class_src(c, style, kind)})
+        op_of_step.append(len(ops) - 1)
+
+    def call(k0, k1):
+        parts = [(0, {0: k0} if k0 is not None else {}), (1, {1: k1} if k1 is not None else {})]
+        ops.append(("decodeseq", [(si, dict(k), []) for si, k in parts]))
+        script.append({"op": "decode", "call": "H0.from_dict", "holder": False, "shape": None, "input": None,
+                       "multi": [[sites[si]["vfield"], sites[si]["shape"], {FIELDS[f]: tag_value(style, t) for f, t in k.items()}]
+                                 for si, k in parts]})
+        op_of_step.append(len(ops) - 1)
+
+    for c in cls_[:4]:
+        define(c)
+    script.append({"op": "exec", "src": "@dataclass\nclass H0(DataClassDictMixin):\n" + "".join(
+        f"    {s_['vfield']}: {site_type_src(s_)}\n" for s_ in sites)})
+    op_of_step.append(None)
+    for k0, k1 in [(5, 5), (5, 6), (6, 5), (5, None), (None, 5), (5, 7)]:
+        call(k0, k1)
+    define(cls_[4])
+    for k0, k1 in [(5, 7), (5, 5), (9, 7), (5, 9)]:
+        call(k0, k1)
+    return Hist(kind, style, sites, ops, script, op_of_step,
+                {"kind": kind, "style": style, "unique": None, "classes": cls_, "stream": "fixed"})
+
+
 def fixed_histories() -> list[Hist]:
-    out = []
+    out = [fixed_multi()]
     cfg = {"field": True, "sub": True, "sup": False, "tagger": False}
     for style in ("str", "int", "enum"):
         # class defined after the first call / after decoder creation; class without own tag; three levels
@@ -1276,7 +1317,7 @@ def probe_optional_union(ctx: vlib.Ctx, n: int):
 # the check
 # ---------------------------------------------------------------------------
 
-CODE_THEOREMS = ["C12_code_variants"]
+CODE_THEOREMS = ["C12_code_variants", "C12_code_exceptions"]
 THEOREMS = ["C12_registry_invariant", "C12_registry", "C12_missing_tag", "C12_present_keys_not_missing", "C12_nested_missing_key", "C12_multi_field", "C12_variant_keyerror_refuted", "C12_history_independent",
             "C12_eligible_exact", "C12_nofield", "C12_trace_event", "C12_tag_unique_decidable",
             "C12_nonunique_order_dependent", "C12_class_level_self_excluded",
